@@ -40,7 +40,7 @@ Fixpoint c05_walk (lower : str -> str) (c : cfg) (u : upolicy) (outage : option 
             (negb (s_refresh_dl s <? now) || negb (match s_refresh_tok s with [] => true | _ => false end)) in
           let step_ok :=
             (* grace only for 429/503 answers, only within G of the FIRST such answer, never past the lifetime *)
-            (negb gs || (outage_ans && (now <? g + c_G c + 1) && (now <=? s_lifetime_dl s + 1))) &&
+            (negb gs || (outage_ans && (now <? g + c_G c) && (now <=? s_lifetime_dl s + 1))) &&
             (* an existing session keeps working during the grace period of the current outage
                (in particular a later outage, after a success, gets a fresh period) *)
             (negb (is_due && negb confirmed && outage_ans && otherwise_ok && (now <? g + c_G c - 1)) || o_served o) in
